@@ -13,6 +13,7 @@
    particles [p]; operators that recompute the inertial positions from p_jh before they use them (symplectic
    correctors, SABA correctors) are typed J -> J, their scratch writes to r->particles are overwritten by the next
    to_inertial before anything reads them; [repos j p] is reb_particles_transform_jacobi_to_inertial_pos.
+   (This typing is a checked obligation: C09_operator_typing on the access table regenerated from the C source.)
    [to_inertial] is reb_integrator_whfast_to_inertial (end of part1), [to_inertial_sync] the posvel transformation at
    the end of synchronize (the same C routine for real particles, kept apart because variational particles are
    treated differently).  Time arguments are computed in the arithmetic [Num T] exactly as the C expressions
